@@ -22,6 +22,20 @@ def decl_list(fn):
 
 
 RENAMES = {}      # (relpath, function) -> {recorded name: current name}
+LOOPKINDS = {}    # relpath -> {function: [kind of loop 0, kind of loop 1, ...]} as recorded when the contracts were written
+
+
+def loop_kinds(fn):
+    out = []
+
+    def scan(n):
+        if isinstance(n, dict):
+            if n.get('kind') in ('ForStmt', 'WhileStmt', 'DoStmt'):
+                out.append(n['kind'])
+            for x in n.get('inner', []):
+                scan(x)
+    scan(cast.body_of(fn))
+    return out
 
 
 def apply_renames(relpath, tu):
@@ -31,7 +45,9 @@ def apply_renames(relpath, tu):
     p = os.path.join(os.path.dirname(os.path.dirname(os.path.abspath(__file__))), 'contracts', 'locals.json')
     if not os.path.exists(p) or relpath not in contract.REGISTRY:
         return
-    rec = json.load(open(p)).get(relpath, {})
+    allrec = json.load(open(p))
+    rec = allrec.get(relpath, {})
+    LOOPKINDS[relpath] = allrec.get('#loops', {}).get(relpath, {})
     cfile = contract.REGISTRY[relpath]
     for kname, K in cfile.kernels.items():
         f = kname.split('#')[0]
@@ -69,6 +85,7 @@ def _gen(task):
     try:
         tu = _TUS[relpath]; cfile = contract.REGISTRY[relpath]
         g = engc.VCGen(tu, cfile, consts)
+        g.loopkinds = LOOPKINDS.get(relpath, {})
         obls = g.function(fname)
         vcs = []
         # fast pass: one incremental solver per function holding the quantifier-free hypotheses (they only grow along the
